@@ -3,9 +3,10 @@ from props._common import COMMON_TB
 PROP = dict(
     title="A task works on its own copies of the values it captures",
     lean_module="AbraProofs.Properties.C08",
-    required_theorems=["C08_deepcopy_equal", "C08_deepcopy_preserves_original", "C08_deepcopy_disjoint",
+    required_theorems=["C08_deepcopy_total", "C08_deepcopy_iso", "C08_deepcopy_sharing", "C08_spawn_copies_one_graph",
+                       "C08_deepcopy_equal", "C08_deepcopy_preserves_original", "C08_deepcopy_disjoint",
                        "C08_deepcopy_channel_shared", "C08_threads_isolated", "C08_spawn_isolated",
-                       "C08_deepcopy_cyclic_counterexample"],
+                       "C08_deepcopy_prerepair_cyclic"],
     harness_bin="c08",
     # the model answer (rendering of the deep copy, all of it owned by the new thread) is what the theorems show
     # the property demands, so a differing implementation answer is itself a failing input
@@ -17,9 +18,13 @@ PROP = dict(
          "mutated again by the receiver), each run under the budgets {1,2,3,7,100}. spec_fail: every printed rendering "
          "(what the task saw at its start, after its own mutations, the spawner's original at the end, what came back "
          "through the captured channel) equals the rendering computed in Rust from the generated value and mutations. "
-         "Model case per program: `heapcopy <value>` - Lean deepCopy renders the copy as the task saw it and owns all of "
-         "it; distinct = distinct values; non-trivial = the value contains a heap object",
-    nontrivial=lambda req, imp: "(" in req or "'" in req,
+         "Plus (quick 120 / thorough 1500) aliasing and cyclic captures in 6 shapes (one array under two variables; under two "
+         "fields of one struct; as a capture and as a field of another capture; a struct whose array field contains it; a "
+         "two-node cycle; one Box twice in an array): the task mutates through one alias and observes through the other, so does "
+         "the spawner on its originals. Model cases: `heapcopy <value>` - Lean deepCopy renders the copy as the task saw it and "
+         "owns all of it - and `heapalias <captures with labels> | <ops>` - spawnCopy (one map), the same mutations and "
+         "observations, every printed line; distinct = distinct values; non-trivial = the value contains a heap object",
+    nontrivial=lambda req, imp: "(" in req or "'" in req or "&" in req,
     trusted_base=COMMON_TB + [
         "Rust Box/raw pointers: an object allocated by a thread stays readable and unchanged until that thread is dropped or stores into it (heap model Abra.Heap); garbage collection is C06",
         "the Abra `show_*` functions of the harness (string concatenation, match, for) render the value faithfully",
@@ -27,18 +32,23 @@ PROP = dict(
     assumptions=[
         "capture analysis (which variables a task block captures: translate_bytecode.rs calculate_args_captures_locals) is "
         "exercised by the harness only; the theorems are about SpawnTask/deep_copy on the captured values",
-        "acyclic values: a successful copy is the hypothesis of the theorems; cyclic values never copy (D24)",
+        "the theorems are about the repaired deep copy (fix 0cb8741) and hold for all values, shared and cyclic included; the model reads "
+        "source objects from the heaps as they were when the copy started and fills a copy when its last child is done (both invisible in the "
+        "result because nothing but fresh copies is written, and no copy is read, during a copy)",
     ],
     design_ref="DESIGN.md §6 C08",
-    level_text="Theorems about a model of Value::deep_copy over per-thread heaps (address = thread id x index): a successful "
-               "copy renders equal to the original, every object reachable from it belongs to the new thread (channel "
-               "handles are new objects naming the same queue), and under the ownership invariant no store into or "
-               "teardown of another thread's heap changes how a value renders - in both directions after a spawn. "
-               "Cyclic values never copy (proved witness of known finding D24). Tied to /repo by running generated "
-               "capture programs under five budgets against renderings computed independently, and by a heapcopy "
-               "correspondence with the Lean model.",
-    level_note="proof for acyclic values; D24 (cyclic capture aborts the host) is a known finding replayed in a child process. "
-               "The heap model is validated by correspondence, not derived from vm.rs.",
+    level_text="Theorems about a model of Value::deep_copy_helper (map source address -> copy, copy recorded before its children) over "
+               "per-thread heaps, for ALL values incl. shared and cyclic ones: the copy always finishes with fuel = number of reachable "
+               "objects + 1 on a well-formed graph; the copy is isomorphic to the source graph (every copied object is the image of its "
+               "source object under the map, the map is injective, covers everything reachable from the source and nothing else is "
+               "reachable from the copy; sharing preserved exactly; one map for all captures of a SpawnTask); values that render, render "
+               "equal; every object reachable from the copy belongs to the new thread (channel handles are new objects naming the same "
+               "queue); under the ownership invariant no store into or teardown of another thread's heap changes anything reachable "
+               "from a value - both directions after a spawn. The pre-repair copy provably never finished on a cyclic value. Tied to "
+               "/repo by generated capture programs (plain, aliased, cyclic) under five budgets against renderings computed "
+               "independently, and by heapcopy/heapalias correspondences with the Lean model.",
+    level_note="proof for all values (D24 fixed by 0cb8741; kept as a regression run in a child process). The heap model is validated by "
+               "correspondence, not derived from vm.rs.",
     technique="Lean 4 theorems (fuel induction, heap extension/monotonicity, reachability congruence) over a hand-written heap model + differential programs against the real compiler and VM",
     timeout=3000,
 )
